@@ -199,21 +199,21 @@ pub open spec fn tx_view(t: &BaseTransaction, ks: u64, key: Seq<u8>) -> Option<S
 //@contract
     requires forall|k: &Keyspace| #[trigger] resolves(&keyspace, k) ==> ks_ok(k),
     ensures r.iter.at@ == self.nonce.instant && r.nonce.instant == self.nonce.instant, // [C05:tx-reads-at-its-own-instant] [C06:tx-reads-at-its-own-instant]
-        r.iter.local@ is Some ==> r.iter.local@ == Some(self.seqno), // [C08:scan-merges-local-writes-up-to-own-seqno]
+        r.iter.local@ is Some ==> r.iter.local@ == Some(self.seqno), // [C08:scan-merges-local-writes-up-to-own-seqno] [C05:scan-merges-local-writes-up-to-own-seqno]
         tx_reads(*old(w), *final(w), self.nonce.instant),
 //@end
 //@extract src/tx/write_tx.rs :: Readable for BaseTransaction :: range world inherent optmap props=C08+C05
 //@contract
     requires forall|k: &Keyspace| #[trigger] resolves(&keyspace, k) ==> ks_ok(k),
     ensures r.iter.at@ == self.nonce.instant && r.nonce.instant == self.nonce.instant, // [C05:tx-reads-at-its-own-instant] [C06:tx-reads-at-its-own-instant]
-        r.iter.local@ is Some ==> r.iter.local@ == Some(self.seqno), // [C08:scan-merges-local-writes-up-to-own-seqno]
+        r.iter.local@ is Some ==> r.iter.local@ == Some(self.seqno), // [C08:scan-merges-local-writes-up-to-own-seqno] [C05:scan-merges-local-writes-up-to-own-seqno]
         tx_reads(*old(w), *final(w), self.nonce.instant),
 //@end
 //@extract src/tx/write_tx.rs :: Readable for BaseTransaction :: prefix world inherent optmap props=C08+C05
 //@contract
     requires forall|k: &Keyspace| #[trigger] resolves(&keyspace, k) ==> ks_ok(k),
     ensures r.iter.at@ == self.nonce.instant && r.nonce.instant == self.nonce.instant, // [C05:tx-reads-at-its-own-instant] [C06:tx-reads-at-its-own-instant]
-        r.iter.local@ is Some ==> r.iter.local@ == Some(self.seqno), // [C08:scan-merges-local-writes-up-to-own-seqno]
+        r.iter.local@ is Some ==> r.iter.local@ == Some(self.seqno), // [C08:scan-merges-local-writes-up-to-own-seqno] [C05:scan-merges-local-writes-up-to-own-seqno]
         tx_reads(*old(w), *final(w), self.nonce.instant),
 //@end
 
